@@ -16,6 +16,8 @@ def main(tier):
     models.cooling_formulas(P, rep)
     models.smooth_blend(P, rep)
     rep.attempt(models.parameter_single_source, P, rep)
+    rep.attempt(footprint.angle_interpolation, P, rep)     # the Gaussian plume's ellipse orientation between two cross sections
+    rep.attempt(footprint.ellipse_fraction, P, rep)
     footprint.ridge_alias_twins(P, rep)    # (dist, v) of the cooling formulas come from one and the same ridge point
     rep.assumptions.append("Chapman geotherm, mass-conserving slab and tian2019 parameterisations have no independent closed form short "
                            "enough to serve as an oracle: not decided; numerical accuracy not decided")
